@@ -179,6 +179,7 @@ unsigned MessageBase::decode_group(GroupBase *grpbase, const unsigned short fnum
 	for (bool ok(true); ok && s_offset < fsize; )
 	{
 		unique_ptr<MessageBase> grp(grpbase->create_group(false)); // shallow create
+		const unsigned element_offset(s_offset);
 
 		for (unsigned pos(0); s_offset < fsize && (result = extract_element(dptr + s_offset, fsize - s_offset, tag, val));)
 		{
@@ -211,6 +212,8 @@ unsigned MessageBase::decode_group(GroupBase *grpbase, const unsigned short fnum
 			ostr << tbe->_name << " (" << missing << ')';
 			throw MissingMandatoryField(ostr.str());
 		}
+		if (s_offset == element_offset)	// nothing could be extracted for this element: stop, do not loop on the same offset
+			break;
 		*grpbase << grp.release();
 	}
 
